@@ -683,7 +683,8 @@ def run_check(prop, tier, seed=None):
 
     # ---- aggregate ----------------------------------------------------------------------
     n_paths = sum(len(r["paths"]) for r in recs)
-    aborted = sum(1 for r in recs for p in r["paths"] if "abort" in p)
+    outside = sum(1 for r in recs for p in r["paths"] if "abort" in p and p["abort"].startswith("outside"))
+    aborted = sum(1 for r in recs for p in r["paths"] if "abort" in p and not p["abort"].startswith("outside"))
     abort_reasons = {}
     for r in recs:
         for p in r["paths"]:
@@ -753,7 +754,7 @@ def run_check(prop, tier, seed=None):
         "seed": seed,
         "level": "model_checking",
         "coverage": {
-            "states": max(n_paths - aborted, 0),
+            "states": max(n_paths - aborted - outside, 0),
             "transitions": int(stats.get("decisions", 0)) + n_obl,
             "traces_validated_against_impl": validated,
             "samples": samples or [{"note": "no path"}],
@@ -768,6 +769,7 @@ def run_check(prop, tier, seed=None):
             "solver_time_s": round(stats.get("solver_time", 0.0), 2),
             "branch_decisions": int(stats.get("decisions", 0)),
             "aborted_paths": aborted,
+            "paths_outside_the_claim": outside,
             "abort_reasons": abort_reasons,
             "path_cap_hits": cap_hits,
             "outcome_census": census,
